@@ -1,0 +1,7 @@
+//go:build !verif
+
+package retriever
+
+// verifCrashPoint marks a point between two file-system steps of Dump. Without the verif build tag it does nothing;
+// with it (/verif/DESIGN.md, C19) a test harness can stop the process exactly there.
+func verifCrashPoint(string) {}
